@@ -124,7 +124,7 @@ def observe(ph, w, op, tmpdir, tag):
             p = ph.plot_band_structure()
             fig = p.gcf()
             panels = []
-            for ax in fig.axes:
+            for ax in [a for a in fig.axes if a.get_visible()]:     # ImageGrid also holds invisible colour-bar axes
                 ticks = list(ax.get_xticks())
                 labs = [t.get_text() for t in ax.get_xticklabels()]
                 if len(ticks) != len(labs):
